@@ -88,6 +88,9 @@ var guardSpecs = []guardSpec{
 	{"listRunningGuard", "pkg/controller.v1beta1/experiment/util/status_util.go", "updateTrialsSummary", "stmt:sts.RunningTrialList = append(", clsAtoms, clsParams, true},
 	{"listMetricsUnavailableGuard", "pkg/controller.v1beta1/experiment/util/status_util.go", "updateTrialsSummary", "stmt:sts.MetricsUnavailableTrialList = append(", clsAtoms, clsParams, true},
 	{"listPendingGuard", "pkg/controller.v1beta1/experiment/util/status_util.go", "updateTrialsSummary", "stmt:sts.PendingTrialList = append(", clsAtoms, clsParams, true},
+	{"callCollectorContainerGuard", "pkg/webhook/v1beta1/pod/inject_webhook.go", "Mutate", "s.getMetricsCollectorContainer(trial, pod)", podAtoms, podParams, false},
+	{"callWrapWorkerGuard", "pkg/webhook/v1beta1/pod/inject_webhook.go", "Mutate", "wrapWorkerContainer(trial, mutatedPod", podAtoms, podParams, false},
+	{"callMetricsVolumeGuard", "pkg/webhook/v1beta1/pod/inject_webhook.go", "Mutate", "mutateMetricsCollectorVolume(mutatedPod", podAtoms, podParams, false},
 	{"sugRestartGuard", "pkg/controller.v1beta1/experiment/experiment_controller_util.go", "restartSuggestion", "original.DeepCopy()",
 		map[string]string{"err != nil": "getFailed", "errors.IsNotFound(err)": "notFound", "original.IsCompleted()": "sugCompleted", "original.IsRestarting()": "sugRestarting", "original.IsSucceeded()": "sugSucceeded", "instance.IsRestarting()": "expRestarting"},
 		[]string{"getFailed", "notFound", "sugCompleted", "sugRestarting", "sugSucceeded", "expRestarting"}, false},
@@ -193,6 +196,13 @@ var clsAtoms = map[string]string{
 	"instance.Spec.Objective.Goal != nil": "goalSet",
 }
 var clsParams = []string{"killed", "failed", "succeeded", "earlyStopped", "running", "metricsUnavailable", "goalSet"}
+
+var podAtoms = map[string]string{
+	"err != nil": "failed#", "trial.Spec.PrimaryPodLabels != nil": "labelsSet", "isPrimaryPod(pod.Labels, trial.Spec.PrimaryPodLabels)": "isPrimary",
+	"trial.Spec.MetricsCollector.Collector.Kind == common.PushCollector": "push", "envErr != nil": "noPrimaryContainer",
+	"mountPath != \"\"": "mountPathSet", "needWrapWorkerContainer(trial.Spec.MetricsCollector)": "needWrap", "mutatedPod.Name != \"\"": "podNamed",
+}
+var podParams = []string{"failed1", "failed2", "failed3", "failed4", "failed5", "failed6", "labelsSet", "isPrimary", "push", "noPrimaryContainer", "mountPathSet", "needWrap", "podNamed"}
 
 var verdictAtoms = map[string]string{
 	"jobStatus.Condition == trialutil.JobSucceeded": "jobSucceeded", "jobStatus.Condition == trialutil.JobFailed": "jobFailed",
